@@ -274,6 +274,13 @@ func (v *Verifier) newCtx(fn *ssa.Function, con *Contract) *FuncCtx {
 		pureDecl: map[string]bool{}, constGlobals: map[string]Term{}, uncontracted: map[string]bool{}, calleeContracts: map[string]bool{}, pureSig: map[string]string{}}
 	c.guard = tTrue
 	c.sc.onAssume = c.noteAssumption
+	if con != nil {
+		for _, n := range con.Notes {
+			if n == "floats ieee" {
+				c.sc.ieeeFloats = true
+			}
+		}
+	}
 	if con != nil && math {
 		for _, n := range con.Notes {
 			if n == "theory strings" {
